@@ -67,6 +67,7 @@ case "$3" in
   *) exit 1;;
 esac
 [ -f "$f.sleep" ] && /bin/sleep 3
+[ -f "$C20_GIT/delay" ] && /bin/sleep "$(/bin/cat "$C20_GIT/delay")"
 [ -f "$f.out" ] && /bin/cat "$f.out"
 [ -f "$f.rc" ] && exit "$(/bin/cat "$f.rc")"
 exit 0
@@ -369,6 +370,8 @@ def setup_case(sc, scratch, d):
         else:
             write_bytes(os.path.join(gd, which + ".rc"), str(spec[1]).encode())
             write_bytes(os.path.join(gd, which + ".out"), bytes.fromhex(spec[2]) if spec[0] == "hex" else spec[2].encode())
+    if g.get("delay"):
+        write_bytes(os.path.join(gd, "delay"), str(g["delay"]).encode())
     exp["git"] = g
     return exp
 
@@ -735,7 +738,7 @@ def compare_model(sc, exp, obs, d, model, out, record=False):
 
 
 # ------------------------------------------------------------------------------------------ generators
-SIDS = ["", "abc", "7f9c2a1e-0b5d-4c3a-9e8f-123456789abc", "a/b", "a_b", "/", "//", "../../x/y", "..", ".", "./.",
+SIDS = ["", "abc", "7f9c2a1e-0b5d-4c3a-9e8f-123456789abc", "a/b", "a_b", "/", "//", "../../x/y", "../escape", "/tmp/abs", "..", ".", "./.",
         "a\x00b", "x" * 10240, "y" * 245, "y" * 250, "\udc80", "\ud800", "é漢\U0001f600", " ", "a\nb", "-rf", ".cache",
         "default", "a\\b", "CON", "~", "$(id)", "*", "x.cache.tmp.1"]
 SID_NONSTR = [None, 0, 5, -1, 1.5, 0.0, True, False, [], [1], {}, {"a": 1}, ["a/b"]]
@@ -1097,11 +1100,14 @@ def concurrency(scratch, out, rng, rounds, nproc, size):
     served_total = 0
     for rnd in range(rounds):
         d = scratch.case_dir()
-        sc = base_sc({}, log=rng.choice(["present", "absent"]))
+        # the git stub sleeps a little: the processes that missed the cache all reach set_cache at about the same time
+        sc = base_sc({}, log=rng.choice(["present", "absent"]),
+                     git={"branch": ["ok", 0, "main\n"], "diff": ["ok", 0, ""], "delay": rng.choice(["0.05", "0.15"])})
         setup_case(sc, scratch, d)
         env = env_of(sc, scratch, d)
         sid = "shared-%d" % rnd
-        vals = [{"session_id": sid, "model": {"display_name": big_name(k, size)}} for k in range(nproc)]
+        vals = [{"session_id": sid, "model": {"display_name": big_name(k, size)}, "workspace": {"current_dir": os.path.join(d, "work", "proj")}}
+                for k in range(nproc)]
         # the complete line of each invocation, from the real command in an isolated cache
         complete = set()
         solo = []
@@ -1121,6 +1127,10 @@ def concurrency(scratch, out, rng, rounds, nproc, size):
             complete.add(pre + v["model"]["display_name"].encode() + post)
         procs = []
         plan = []
+        infiles = {}
+        for k, v in enumerate(vals):
+            infiles[id(v)] = os.path.join(d, "tmp", f"in{k}.json")
+            write_bytes(infiles[id(v)], json.dumps(v).encode())
         for wave in range(3):
             for k, v in enumerate(vals):
                 plan.append((rng.uniform(0, 0.25) + wave * 0.3, v, rng.random() < 0.35, rng.uniform(0.0, 0.12)))
@@ -1131,13 +1141,8 @@ def concurrency(scratch, out, rng, rounds, nproc, size):
             dt = start - (time.time() - t0)
             if dt > 0:
                 time.sleep(dt)
-            p = subprocess.Popen([PY, script()], stdin=subprocess.PIPE, stdout=subprocess.PIPE, stderr=subprocess.PIPE, env=env,
+            p = subprocess.Popen([PY, script()], stdin=open(infiles[id(v)], "rb"), stdout=subprocess.PIPE, stderr=subprocess.PIPE, env=env,
                                  cwd=os.path.join(d, "work"))
-            try:
-                p.stdin.write(json.dumps(v).encode())
-                p.stdin.close()
-            except OSError:
-                pass
             procs.append((p, kill))
             if kill:
                 kills.append((time.time() + after, p))
@@ -1158,10 +1163,9 @@ def concurrency(scratch, out, rng, rounds, nproc, size):
             except OSError:
                 pass
         killed = survived = 0
-        for p, kill in procs:
-            so = p.stdout.read()
-            se = p.stderr.read()
-            p.wait()
+        with concurrent.futures.ThreadPoolExecutor(max_workers=len(procs)) as ex:
+            outs = list(ex.map(lambda pk: pk[0].communicate(), procs))
+        for (p, kill), (so, se) in zip(procs, outs):
             if p.returncode == -signal.SIGKILL:
                 killed += 1
                 continue
@@ -1192,6 +1196,65 @@ def concurrency(scratch, out, rng, rounds, nproc, size):
     return served_total
 
 
+# ------------------------------------------------------------------------------------------ kill at each point of the write
+KILL_POINTS = ["before_open", "after_open", "mid_write", "after_close", "after_rename"]
+
+
+def kill_points(scratch, out, sizes):
+    """SIGKILL exactly at each boundary of the cache write (fault injection by harness/c20_killwrap.py); afterwards the
+    entry on disk and the line served to the next invocation must be the old or the new complete line."""
+    wrap = os.path.join(os.path.dirname(os.path.abspath(__file__)), "c20_killwrap.py")
+    for size in sizes:
+        for point in KILL_POINTS:
+            for had_entry in (True, False):
+                d = scratch.case_dir()
+                sc = base_sc({}, log="present")
+                setup_case(sc, scratch, d)
+                env = env_of(sc, scratch, d)
+                sid = "kp"
+                entry = os.path.join(cache_dir(d), sid + ".cache")
+                mk = lambda name: json.dumps({"session_id": sid, "model": {"display_name": name}}).encode()
+                old = new = None
+                if had_entry:
+                    q = subprocess.run([PY, script()], input=mk("OLD" + "o" * size), env=env, capture_output=True, cwd=os.path.join(d, "work"))
+                    old = q.stdout
+                    t = time.time() - 100
+                    os.utime(entry, (t, t))
+                # the complete new line, from an isolated run
+                d2 = scratch.case_dir()
+                setup_case(sc, scratch, d2)
+                q = subprocess.run([PY, script()], input=mk("NEW" + "n" * size), env=env_of(sc, scratch, d2), capture_output=True, cwd=os.path.join(d2, "work"))
+                new = q.stdout
+                shutil.rmtree(d2, ignore_errors=True)
+                k = subprocess.run([PY, wrap, script(), point], input=mk("NEW" + "n" * size), env=env, capture_output=True, cwd=os.path.join(d, "work"))
+                out.case(["kill", point, had_entry, size], nontrivial=True)
+                out.count("kill-point", point if k.returncode == -signal.SIGKILL else point + ":not-reached")
+                allowed = {x for x in (old, new) if x}
+                on_disk = None
+                if os.path.exists(entry):
+                    with open(entry, "rb") as f:
+                        on_disk = f.read() + b"\n"
+                    if on_disk not in allowed:
+                        out.violations.append({"kind": "atomic", "what": f"after a SIGKILL at '{point}' of the cache write the entry holds a partial or mixed line",
+                                               "kill_point": point, "had_entry": had_entry, "len_on_disk": len(on_disk), "len_old": len(old or b""), "len_new": len(new),
+                                               "signature_text": "atomic: torn entry after kill at " + point})
+                    now = time.time()
+                    os.utime(entry, (now, now))
+                r = subprocess.run([PY, script()], input=mk("READER"), env=env, capture_output=True, cwd=os.path.join(d, "work"))
+                if on_disk is not None and r.stdout not in allowed:
+                    out.violations.append({"kind": "atomic", "what": f"the invocation after a SIGKILL at '{point}' was served a line that no invocation produced",
+                                           "kill_point": point, "served_len": len(r.stdout), "served_head": repr(r.stdout[:60]),
+                                           "signature_text": "atomic: torn line served after kill at " + point})
+                if r.returncode != 0 or not r.stdout or b"Traceback" in r.stderr:
+                    out.violations.append({"kind": "total", "what": "the invocation after a killed one failed", "rc": r.returncode,
+                                           "signature_text": "total: after kill at " + point})
+                stray = [n for n in os.listdir(cache_dir(d)) if not n.startswith(("kp.cache", "mcp.cache"))]
+                if stray:
+                    out.violations.append({"kind": "confine", "what": "unexpected files in the cache directory after a kill", "files": stray,
+                                           "signature_text": "confine: stray after kill " + point})
+                shutil.rmtree(d, ignore_errors=True)
+
+
 # ------------------------------------------------------------------------------------------ strace: the protocol
 SYS_RE = re.compile(r"^(\d+)\s+(\d+\.\d+)\s+(\w+)\((.*)\)\s+=\s+(-?\d+)")
 
@@ -1203,24 +1266,26 @@ def strace_trace(scratch, model, out, nproc, size):
         out.notes.append("strace not available: protocol trace not validated")
         return 0
     d = scratch.case_dir()
-    sc = base_sc({}, log="absent")
+    # the git stub sleeps: every process has missed the cache before the first one writes it
+    sc = base_sc({}, log="absent", git={"branch": ["ok", 0, "main\n"], "diff": ["ok", 0, ""], "delay": "0.3"})
     setup_case(sc, scratch, d)
     env = env_of(sc, scratch, d)
     sid = "traced"
     entry = os.path.join(cache_dir(d), sid + ".cache")
     procs = []
     for k in range(nproc):
-        v = {"session_id": sid, "model": {"display_name": big_name(k, size)}}
+        v = {"session_id": sid, "model": {"display_name": big_name(k, size)}, "workspace": {"current_dir": os.path.join(d, "work", "proj")}}
         tf = os.path.join(d, "tmp", f"strace{k}.txt")
+        inf = os.path.join(d, "tmp", f"in{k}.json")
+        write_bytes(inf, json.dumps(v).encode())
         p = subprocess.Popen([strace, "-f", "-ttt", "-e", "trace=openat,read,write,close,rename,renameat,renameat2", "-o", tf, PY, script()],
-                             stdin=subprocess.PIPE, stdout=subprocess.PIPE, stderr=subprocess.PIPE, env=env, cwd=os.path.join(d, "work"))
-        p.stdin.write(json.dumps(v).encode()); p.stdin.close()
+                             stdin=open(inf, "rb"), stdout=subprocess.PIPE, stderr=subprocess.PIPE, env=env, cwd=os.path.join(d, "work"))
         procs.append((p, tf, v))
-        time.sleep(0.01)
-    results = []
-    for p, tf, v in procs:
-        so = p.stdout.read(); p.stderr.read(); p.wait()
-        results.append(so)
+    results = [None] * nproc
+    with concurrent.futures.ThreadPoolExecutor(max_workers=nproc) as ex:
+        futs = [ex.submit(p.communicate) for p, _, _ in procs]
+        for k, fu in enumerate(futs):
+            results[k] = fu.result()[0]
     # a reader after the writers
     tf = os.path.join(d, "tmp", "strace-reader.txt")
     p = subprocess.run([strace, "-f", "-ttt", "-e", "trace=openat,read,write,close,rename,renameat,renameat2", "-o", tf, PY, script()],
@@ -1346,6 +1411,7 @@ def run(tier, seed, replay=None):
             check_paths(model, scratch, out, rng, 300 if tier == "quick" else 20000)
             histories(scratch, model, out, rng, 6 if tier == "quick" else 150)
             alias_mcp(scratch, model, out)
+            kill_points(scratch, out, [50, 300000] if tier == "quick" else [0, 50, 9000, 300000, 3000000])
             if tier == "quick":
                 concurrency(scratch, out, rng, rounds=3, nproc=6, size=400000)
                 strace_trace(scratch, model, out, nproc=3, size=50000)
